@@ -27,6 +27,40 @@ def residue(tree, acc, path=""):
             residue(v, acc, path + "[%d]" % i)
 
 
+PRIMC = {"int32": "PInt32", "bool": "PBool", "string": "PString"}
+
+
+def S(s_):
+    return vlib.coq_Nlist(list(s_.encode("utf-8")))
+
+
+def coq_ty(t):
+    k = t[0]
+    if k in PRIMC:
+        return "(TPrim %s)" % PRIMC[k]
+    if k in ("P", "E"):
+        return "(TNamed %s)" % S(k)
+    if k == "tup":
+        return "(TTuple [%s; %s])" % (coq_ty(t[1]), coq_ty(t[2]))
+    if k == "Vec":
+        return "(TVec %s)" % coq_ty(t[1])
+    if k in ("Box", "Opt"):
+        return "(TApp %s [%s])" % (S(k), coq_ty(t[1]))
+    if k == "Two":
+        return "(TApp %s [%s; %s])" % (S(k), coq_ty(t[1]), coq_ty(t[2]))
+    raise KeyError(k)
+
+
+def model_name_term(gen, name, conc):
+    it = gen.items[name]
+    base = name
+    if it.method_of:
+        hdr = {"Box": "Box[T]", "Two": "Two[T,U]"}[it.method_of]
+        base = "inherent#%s#%s#%s" % (it.method_of, hdr, name.split(".")[1])
+    pairs = sorted(zip([tp for tp, _ in it.tparams], conc))
+    return "(spec_name %s [%s])" % (S(base), "; ".join("(%s, %s)" % (S(tp), coq_ty(c)) for tp, c in pairs))
+
+
 def expected_name(gen, name, conc):
     it = gen.items[name]
     base = name
@@ -41,7 +75,7 @@ def check(run):
     run.level = "translation_validation"
     broken = []
     try:
-        vlib.proof_stage(run, "C07", ["C01/Properties.v"], pins="C01")
+        vlib.proof_stage(run, "C07", ["C01/Properties.v", "C07/Properties.v"], pins="C07")
     except Broken as b:
         broken.append(b)
     rng = run.sub_rng("c07")
@@ -55,6 +89,7 @@ def check(run):
         Pms.append(Pm)
         infos.append(info)
     wits = []
+    name_cases = []
     stats = {"pairs": n, "agree": 0, "generic_rejected": 0, "instances": 0, "distinct_instantiation_types": set()}
     try:
         root1, pm_paths = semrun.write_programs("c07m", Pms)
@@ -94,6 +129,7 @@ def check(run):
                 wits.append({"kind": "type parameter / type application residue after monomorphisation: " + acc[0], "program": P})
             names = [f[2]["name"][1] for f in mono[2]["toplevels"][1]]
             inst_names = [x for x in names if "__T_" in x]
+            name_cases.append(("[%s]" % "; ".join(model_name_term(g, nm, tuple(c)) for nm, c in g.order), "[%s]" % "; ".join(S(x) for x in sorted(inst_names)), P))
             want = sorted(expected_name(g, nm, tuple(c)) for nm, c in g.order)
             stats["instances"] += len(want)
             for nm, c in g.order:
@@ -107,6 +143,27 @@ def check(run):
                 wits.append({"kind": "the generated instances are not exactly the instantiations reachable from main: missing %s, unexpected %s" % (missing[:3], extra[:3]), "program": P})
             if "TParam" in (side.get("go") or ""):
                 wits.append({"kind": "the emitted Go mentions a type parameter", "program": P})
+        # the Coq model of spec_name_for / ty_compact must give exactly the names of the real Mono instances
+        per = 20
+        texts = []
+        for k0 in range(0, len(name_cases), per):
+            body = "From Goml Require Import Common.Base C07.Names.\nOpen Scope N_scope.\n"
+            body += "Definition same (a b : list str) : bool := forallb (fun x => existsb (list_eqb x) b) a && forallb (fun x => existsb (list_eqb x) a) b.\n"
+            body += "Eval vm_compute in [%s].\n" % "; ".join("same %s %s" % (m, r_) for m, r_, _ in name_cases[k0 : k0 + per])
+            texts.append(body)
+        outs = vlib.coq_eval_many("c07names", texts)
+        import re as _re
+
+        flat = []
+        for o in outs:
+            m = _re.search(r"=\s*\[([^\]]*)\]\s*:\s*list bool", o, _re.S)
+            if not m:
+                raise Broken("coq-output", o[-500:])
+            flat += [x.strip() == "true" for x in m.group(1).split(";") if x.strip()]
+        stats["model_names_agree"] = sum(flat)
+        for ok_, (_, _, P) in zip(flat, name_cases):
+            if not ok_:
+                wits.append({"kind": "the Coq model of spec_name_for/ty_compact does not give the names of the real Mono instances (model no longer describes the code)", "program": P})
         shutil.rmtree(root1, ignore_errors=True)
         shutil.rmtree(root2, ignore_errors=True)
     except Broken as b:
@@ -123,6 +180,14 @@ def check(run):
                 wits.append({"kind": "two Mono functions share the name %s" % dup[0], "program": open(pth).read()})
         elif "panic" in r or r.get("timeout"):
             wits.append({"kind": "compiler panic/hang on a corpus program", "program": open(pth).read()})
+    for k in run.known:
+        if k["replay"]["kind"] == "duplicate-instance-name":
+            (r,) = vlib.run_harness("compile", [{"path": vlib.VERIF + "/" + k["replay"]["program"], "dumps": ["mono_dbg"], "timeout_ms": 8000}])
+            if r.get("ok"):
+                names = [f[2]["name"][1] for f in rustdbg.parse(r["dumps"]["mono_dbg"])[2]["toplevels"][1]]
+                dup = sorted(x for x in set(names) if names.count(x) > 1)
+                if dup:
+                    run.known_finding(k["id"], "%s: %s (%s: %s twice)" % (k["id"], k["what"], k["replay"]["program"], dup[0]))
     for k in run.known:
         if k["replay"]["kind"] == "compile-hang":
             (r,) = vlib.run_harness("compile", [{"path": vlib.VERIF + "/" + k["replay"]["program"], "timeout_ms": 4000}])
